@@ -35,6 +35,7 @@ MANIFEST = dict(
                 "definition (Spec/Btor2Sem.v), for all texts and all valuations. Tie to /repo: on every run the real parse_str result is evaluated by the extracted "
                 "Spec/Eval.v and compared with the extracted reference interpreter run on the text; the model is compared with the implementation structurally."),
     level_note=("For the repaired reader (code_variant = Fix, patches/000N-fix-btor2-*.diff) C08_rejects_ill_formed_fix extends the rejection theorem to zero-width sorts and "
-                "non-Boolean bad/constraint lines. Trusted: Coq kernel; Btor2Sem.v as the meaning of btor2; hand-written model tied by differential execution. Three classes of ill-sorted texts are "
-                "accepted and well-formed wide constants are rejected: recorded as known findings."),
+                "non-Boolean bad/constraint lines; for Fix2 (= Fix + prepared patches/0008-fix-btor2-writer-no-array-alias.diff and 0009-fix-btor2-ext-operand-bitvector.diff, not applied in /repo yet) "
+                "C08_rejects_ill_formed_fix2 also covers uext/sext of an array, i.e. every error the interpreter reports under a name of its own. Trusted: Coq kernel; Btor2Sem.v as the meaning of btor2; hand-written model tied by differential execution. Of the code today: uext/sext by 0 of an array is accepted and "
+                "well-formed constants wider than 128 bits are rejected (baa): recorded as known findings."),
 )
